@@ -25,10 +25,10 @@ PROPS = {}
 TWINS = {}     # verus fn label -> kani harness that searches for a concrete failing input of the same obligation
 
 # batches that are wired into checks (a batch under construction is simply not listed here yet)
-READY = ['core', 'eslice', 'op_eval', 'cfi_entries', 'cfi_unwind', 'line', 'attrs', 'units', 'lists', 'relocate',
-         'conv', 'filter', 'wcore', 'wreloc', 'wop']
+READY = ['core', 'eslice', 'op_eval', 'cfi_entries', 'cfi_unwind', 'line', 'attrs', 'units', 'dwarf_ranges', 'index', 'relocate',
+         'conv', 'filter', 'wcore', 'wreloc', 'wop', 'wlists', 'wunit']
 # batch -> batches whose items it re-verifies completely (so the smaller one need not run as well)
-SUPERSEDES = {'op_eval': ['op']}
+SUPERSEDES = {'op_eval': ['op'], 'dwarf_ranges': ['lists']}
 # tags that only quote another property's vocabulary inside a batch (not obligations of that property)
 IGNORE = {('filter', 'C01'), ('filter', 'C07'), ('wunit', 'C03'), ('wunit', 'C15'), ('wlists', 'C15'), ('conv', 'C05'), ('index', 'C09')}
 
